@@ -1378,14 +1378,18 @@ class TypedBytesFixed(TypedBytesBase):
 
 class TypedBytesTerminated(TypedBytesBase):
     def __init__(self, spec, terminators: Sequence[bytes], empty_is_none=False,
-                 check_trailing_bytes=True, lazy=False):
+                 check_trailing_bytes=True, lazy=False, terminate_none=False):
         self._bytes_tmpl = BytesTerminated(terminators)
         self._empty_is_none = empty_is_none
+        # Whether `None` still needs a terminator because other data may follow the field
+        self._terminate_none = terminate_none
         super().__init__(spec, empty_is_none, check_trailing_bytes, lazy=lazy)
 
     def serialize(self, val, writer: BufferWriter, ctx):
         # Don't write a terminator at all if we got `None`
         if val is None and self._empty_is_none:
+            if self._terminate_none:
+                writer.write_bytes(self._bytes_tmpl.terminators[0])
             return
         super().serialize(val, writer, ctx)
 
